@@ -2,7 +2,7 @@
    Gen/FileManager.v of generator/file_manager.go.  This file holds statements only;
    every proof is [exact lemma] and is followed by Print Assumptions. *)
 From Coq Require Import List Arith Bool Permutation.
-From Verif Require Import Base.Bytes Gen.FileManager Gen.FileManagerFacts Gen.FileManagerTerm Corr.C12 Gen.FileManagerSpec Gen.FileManagerText Gen.FileManagerExpand Gen.FileManagerOrder.
+From Verif Require Import Base.Bytes Gen.FileManager Gen.FileManagerFacts Gen.FileManagerTerm Corr.C12 Gen.FileManagerSpec Gen.FileManagerText Gen.FileManagerExpand Gen.FileManagerOrder Gen.MarkerTable Gen.MarkerFacts.
 Import ListNotations.
 
 (* Every history of Feed calls (any number of calls, any items): the assembled output never
@@ -175,6 +175,19 @@ Theorem C12_longest_key_wins :
   forall k', In k' (map fst P) -> is_prefix k' s = true -> List.length k' <= List.length k.
 Proof. exact listed_longest_first. Qed.
 Print Assumptions C12_longest_key_wins.
+
+(* The marker syntax of the model is the source's: `marker` is fmt.Sprintf(InsertionPointFormat, ip)
+   and `ip_char` is the starred character class of insertReg, both as the translator read them from
+   plugin/plugin.go and generator/file_manager.go on this run (Gen/MarkerTable.v is regenerated by
+   every check; an edit of the format or of the class breaks these theorems). *)
+Theorem C12_marker_syntax_is_source :
+  forall ip, marker ip = src_marker_head ++ [Byte.x28] ++ ip ++ [Byte.x29].
+Proof. exact marker_is_source. Qed.
+Print Assumptions C12_marker_syntax_is_source.
+
+Theorem C12_marker_alphabet_is_source : forall c, ip_char c = in_class src_ip_class c.
+Proof. exact ip_char_is_source. Qed.
+Print Assumptions C12_marker_alphabet_is_source.
 
 (* Termination: for every history the model never exhausts the fuel it gives to the rename walk
    (the Go `for {}` loop) or to the item loop — the walk over own siblings ends, and among the
